@@ -111,7 +111,7 @@ def check_union(repo, res, rule):
     m = get_model(repo)
     top = m.scope('SourceScope', Obj(m.cls('BaseScope'), {'names': {}}, 'builtins'))
     n = 0
-    for k in (1, 2, 3):
+    for k in ((1, 2, 3, 4, 5) if getattr(repo, 'tier', 'quick') == 'thorough' else (1, 2, 3)):
         def scenario(k=k):
             parents = []
             binds = []
